@@ -119,6 +119,37 @@ theorem paint_depth_bound_never_hit (d : Doc.Document) (cache : Cache) (key : St
     (drawObject d.fetcher d.opts d.svgInfo ((nestedKeys d.opts d.svgInfo).length + 2) [] cache key c).2.2 = false :=
   svg_drawing_terminates d.fetcher d.opts d.svgInfo cache key c
 
+/-! ## the order in which the images of a document are painted -/
+
+private theorem paintPass_cases (k : ImgKind) : k.paintPass = 0 ∨ k.paintPass = 1 ∨ k.paintPass = 2 := by
+  cases k <;> simp [ImgKind.paintPass]
+
+/-- Every reference is painted in exactly one pass: the paint order is a rearrangement of the references — same
+members, same number. -/
+theorem paintOrder_mem (refs : List ImgRef) (r : ImgRef) : r ∈ paintOrder refs ↔ r ∈ refs := by
+  simp only [paintOrder, List.mem_append, List.mem_filter]
+  constructor
+  · rintro ((h | h) | h) <;> exact h.1
+  · intro h
+    rcases paintPass_cases r.kind with h0 | h1 | h2
+    · exact Or.inl (Or.inl ⟨h, by simp [h0]⟩)
+    · exact Or.inl (Or.inr ⟨h, by simp [h1]⟩)
+    · exact Or.inr ⟨h, by simp [h2]⟩
+
+theorem paintOrder_length (refs : List ImgRef) : (paintOrder refs).length = refs.length := by
+  simp only [paintOrder, List.length_append]
+  induction refs with
+  | nil => rfl
+  | cons r rest ih =>
+    rcases paintPass_cases r.kind with h | h | h <;> simp [List.filter_cons, h] <;> omega
+
+/-- Backgrounds, border images and masks are painted before the inline content, list markers last; inside a pass the
+document order is kept. -/
+example :
+    let mk (k : ImgKind) (u : String) : ImgRef := ⟨k, some u, none, .fromImage, none, none⟩
+    (paintOrder [mk .listStyle "li", mk .img "a", mk .content "c", mk .background "bg", mk .maskBorder "mb"]).map (·.url) =
+      [some "bg", some "mb", some "a", some "c", some "li"] := by decide
+
 /-- Regression input of the repaired finding `svg-self-reference-hang`: an SVG whose two `<image>` elements point at
 itself is drawn once; both nested draws return at once, nothing is fetched, the depth bound is not reached. -/
 example :
